@@ -29,8 +29,10 @@ best = ["cm"]
 units = [ { names = ["centimetre"], symbols = ["cm"], ratio = 1 } ]
 [[quantity]]
 quantity = "temperature"
-best = ["C"]
-units = [ { names = ["celsius"], symbols = ["C", "ºC"], ratio = 1 } ]
+best = { metric = ["C"], imperial = ["X"] }
+[quantity.units]
+metric = [ { names = ["celsius"], symbols = ["C", "ºC"], ratio = 1, difference = 273 } ]
+imperial = [ { names = ["xdegree"], symbols = ["X"], ratio = 2, difference = 10 } ]
 [[quantity]]
 quantity = "time"
 best = ["s", "min", "h"]
